@@ -53,6 +53,8 @@ def rnd_key(rng):
 def rnd_config(rng, selfips=None, deny=None, logger=None, level=None, n4=2, n6=2, single_family=False):
     """selfips/deny: None = decide at random, False = absent, True = present."""
     mac = rnd_mac(rng)
+    if rng.random() < 0.03:
+        mac = bytes(6)          # interfaces without a hardware address (tun, loopback) report the all-zero MAC
     s = None
     if selfips is True or (selfips is None and rng.random() < 0.5):
         k = rng.random() if single_family else 0.0
@@ -62,8 +64,10 @@ def rnd_config(rng, selfips=None, deny=None, logger=None, level=None, n4=2, n6=2
     d = None
     if deny is True or (deny is None and rng.random() < 0.3):
         d = [rnd_ip4(rng) for _ in range(rng.randrange(1, 3))] + [rnd_ip6(rng) for _ in range(rng.randrange(1, 3))]
+    # half of the configurations with a list have it written the way real lists are (file and / or inline, with junk entries)
+    noise = rng.getrandbits(30) if (s or d) and rng.random() < 0.5 else None
     return Config(mac, s, d, rnd_key(rng), rng.choice("ncl") if logger is None else logger,
-                  rng.randrange(6) if level is None else level)
+                  rng.randrange(6) if level is None else level, noise=noise)
 
 
 def all_log_configs():
@@ -135,6 +139,9 @@ def near_requests(rng):
         rng.shuffle(qs)
         out.append(("dns_q%d_c%d" % (qt, qc), dns.header(rng.getrandbits(16), 0x0100, len(qs)) + b"".join(qs), None))
     out.append(("dns_qr", dns.header(rng.getrandbits(16), 0x8180, 1, 1) + dns.question(labels) + dns.rr(labels), None))
+    # names with NUL bytes inside a label, labels that run past the NUL, length octets above 63
+    for nm in (b"\x05ab\x00cd\x00", b"\x0ca\x00\x00\x01\x00\x01efgh\x00\x0f\x00", b"\x01\x00\x00", b"\x03www\x07exa\x00mple\x00", b"\x40" + b"a" * 64 + b"\x00"):
+        out.append(("dns_nul", dns.header(rng.getrandbits(16), 0x0100, 1) + nm + b"\x00\x01\x00\x01", None))
     tid = stun.gen_tid(rng, True)
     for mt in (0x0011, 0x0101, 0x0002, 0x0003):
         out.append(("stun_t%04x" % mt, stun.msg(mt, tid, stun.gen_attrs(rng, 4 * rng.randrange(0x40, 0x60))), None))
